@@ -43,6 +43,8 @@ structure NodeCfg where
   key : Bytes
   trusted : List Bytes
   algos : Algos
+  /-- `config.advertise_addresses` (already parsed, `parse_listen`): listed first among the node's own addresses -/
+  advertise : List NAddr := []
 
 structure Peer where
   addrs : List NAddr
@@ -411,8 +413,9 @@ def housekeep (env : CryptoEnv) (o : Oracle) (n : Node) (now : Int) : Ctx :=
       | none => { c' with panicked := true }
     else c3
   let c5 := reconnectToPeers env o c4 now
+  -- `reset_own_addresses`: advertised addresses, then the address of the UDP socket (port forwarding is not modelled)
   if c5.node.nextOwnReset ≤ now then
-    { c5 with node := { c5.node with own := [c5.node.addr], nextOwnReset := now + 300 } }
+    { c5 with node := { c5.node with own := c5.node.cfg.advertise ++ [c5.node.addr], nextOwnReset := now + 300 } }
   else c5
 
 end Node
